@@ -608,16 +608,31 @@ def minList : List Nat → Nat → Nat
 def startReal (ch : Chip) (v : Ver) (us : List UContainer) : Nat :=
   al8 (minList (us.flatMap (fun u => u.placed.map (·.offset))) (ch.startAddr v))
 
-open SpsdkVerif.BinImg in
+section
+open SpsdkVerif.BinImg
+
+/-- the `BinaryImage` of one data image: `BinaryImage(binary=image, size=image_size, offset=image_offset)` -/
+def dataImg (pl : Placed) : Img := Img.mk pl.ready.size pl.offset 1 (some pl.ready.image) none []
+
+/-- `container.image_info()` placed at the container offset: `BinaryImage(size=header_length(), binary=export())` -/
+def contImg (v : Ver) (u : UContainer) (b : Bytes) : Img :=
+  Img.mk (headerLength v u.placed.length (sbLayout v u.cont.sb).length) u.base 1 (some b) none []
+
+/-- a sequence of `add_image` calls -/
+def addAll (p : Img) (l : List Img) : Img := l.foldl Img.addImage p
+
+def allPlaced (us : List UContainer) : List Placed := us.flatMap (·.placed)
+
+/-- the "AHAB Containers" block: zero filled up to the first data image, holding the containers at their offsets -/
+def contNode (ch : Chip) (v : Ver) (us : List UContainer) (cbytes : List Bytes) : Img :=
+  addAll (Img.mk (startReal ch v us) 0 1 none (some .zeros) []) ((us.zip cbytes).map (fun ub => contImg v ub.1 ub.2))
+
 /-- `AHABImage.image_info()` as a `BinaryImage` tree (model of C16) -/
 def imageInfo (ch : Chip) (v : Ver) (us : List UContainer) (cbytes : List Bytes) : Img :=
-  let contImgs : List Img := (us.zip cbytes).map (fun (u, b) =>
-    Img.mk (headerLength v u.placed.length (sbLayout v u.cont.sb).length) u.base 1 (some b) none [])
-  let contNode : Img := contImgs.foldl (fun p c => p.addImage c) (Img.mk (startReal ch v us) 0 1 none (some .zeros) [])
   let A := ch.imageAlignment
-  let root : Img := Img.mk (alignNat (imageLength ch us) A) 0 A none (some .zeros) [contNode]
-  (us.flatMap (·.placed)).foldl
-    (fun p pl => p.addImage (Img.mk pl.ready.size pl.offset 1 (some pl.ready.image) none [])) root
+  addAll (Img.mk (alignNat (imageLength ch us) A) 0 A none (some .zeros) [contNode ch v us cbytes]) ((allPlaced us).map dataImg)
+
+end
 
 def exportAll (v : Ver) : List UContainer → PyRes (List Bytes)
   | [] => .ok []
